@@ -1206,28 +1206,25 @@ class RDD:
         ...
         ValueError: Can not reduce() empty RDD
         """
-        _empty = object()
-
-        def f_without_empty(a, b):
-            if a is _empty:
-                return b
-            if b is _empty:
-                return a
-            return f(a, b)
-
         def reducer(values):
-            return functools.reduce(f_without_empty, values, _empty)
+            # partial results travel as lists (empty for an empty partition):
+            # a sentinel compared by identity does not survive the round
+            # trip to a process pool
+            values = list(values)
+            return [functools.reduce(f, values)] if values else []
 
         result = self.context.runJob(
             self,
             lambda tc, x: reducer(x),
-            resultHandler=reducer
+            resultHandler=lambda partials: reducer(
+                v for partial in partials for v in partial
+            )
         )
 
-        if result is _empty:
+        if not result:
             raise ValueError("Can not reduce() empty RDD")
 
-        return result
+        return result[0]
 
     def reduceByKey(self, f, numPartitions=None):
         """reduce by key
